@@ -154,9 +154,20 @@ def check(ctx):
     waits = [c for c in upd.own_calls() if isinstance(c.func, ast.Attribute) and c.func.attr == "wait"]
     renders = [c for c in upd.own_calls() if any(x.name == "_do_render" for x in m.callee_funcs(upd, c))]
     outs = [c for c in upd.own_calls() if isinstance(c.func, ast.Attribute) and c.func.attr == "_output"]
+    observes = [c for c in upd.own_calls() if isinstance(c.func, ast.Attribute) and c.func.attr in ("wait", "is_set")
+                and "done" in norm(c.func.value)]
     ok = len(waits) == 1 and len(renders) == 1
     ctx.ob("C20.R2", f"{upd.short}/shape", ok, loc(upd), "one done-wait and one render step per iteration" if ok else "update loop shape changed")
     if ok:
+        rn_ = set(g.of_stmt_containing(renders[0], upd.module))
+        for oc in observes:
+            for on_ in g.of_stmt_containing(oc, upd.module):
+                okp = g.must_pass(on_, rn_, exits={g.exit, g.raise_exit})
+                p = "" if okp else g.fmt_path(g.path(on_, {g.exit}, avoid=rn_))
+                ctx.ob("C20.R2", f"{upd.short}/render-after-observing-done", okp, loc(upd, oc),
+                       "every path from an observation of the done event to the thread's exit passes the render step" if okp else
+                       "the thread can observe the done event and exit without rendering again: if the run ends while a render/"
+                       "output is in flight, the last display never shows the final counts", norm(oc), p)
         wn = g.of(stmt_of(upd.module, waits[0]))
         rn = set(g.of(stmt_of(upd.module, renders[0])))
         okp = all(g.must_pass(w, rn, exits={g.exit, g.raise_exit}) for w in wn)
@@ -237,6 +248,23 @@ def check(ctx):
         ok = isinstance(first, ast.Expr) and norm(first.value) == "self.update_weighted_elapsed()"
         ctx.ob("C20.R5", f"{f.short}/elapsed-first", ok, loc(f), "elapsed time is attributed before any counter changes" if ok else
                "counters change before elapsed time is attributed")
+    uw = stc.methods.get("update_weighted_elapsed")
+    if uw is None:
+        raise AnalysisError("State.update_weighted_elapsed missing")
+    gu = CFG(uw, may_raise=lambda n: False)
+    sets = [n for n in uw.own_nodes() if isinstance(n, ast.Assign) and norm(n.targets[0]) == "self._prev_time"]
+    sn = set()
+    for s_ in sets:
+        sn |= set(gu.of(s_))
+    ok = bool(sets) and gu.must_pass(gu.entry, sn, exits={gu.exit})
+    ctx.ob("C20.R5", f"{uw.short}/advances-clock-on-every-path", ok, loc(uw),
+           "the reference time advances on every path (idle periods are not attributed to later calls)" if ok else
+           "on some path the reference time is not advanced: idle time is later charged to whatever scope runs next",
+           "", "" if ok else gu.fmt_path(gu.path(gu.entry, {gu.exit}, avoid=sn)))
+    tb = [b for b in uw.bindings.get("t", []) if b[0] == "assign"]
+    ok = len(tb) == 1 and norm(tb[0][1]) == "time.time()" and all(norm(s_.value) == "t" for s_ in sets)
+    ctx.ob("C20.R5", f"{uw.short}/one-clock-reading", ok, loc(uw), "one clock reading per update, stored as the new reference" if ok else
+           "elapsed update does not store the clock reading it used")
     for f, sign in ((run, "+"), (comp, "-"), (fail, "-")):
         txt = [norm(s) for s in f.node.body]
         ok = f"scope_state.running {sign}= 1" in txt and f"self.running_count {sign}= 1" in txt
